@@ -267,7 +267,7 @@ func RunBatch(t *testing.T, bs BatchSpec) BatchResult {
 		if len(acts) < 400000 {
 			acts[r.ActHash] = struct{}{}
 		}
-		if nf > 0 && r.Touched && len(nontriv) < 400000 {
+		if (nf > 0 || r.Faultless) && r.Touched && len(nontriv) < 400000 {
 			nontriv[r.ActHash] = struct{}{}
 		}
 		for s := range r.States {
